@@ -1395,3 +1395,121 @@ func mergeNewBlockRound(w *W, idx int) {
 		w.Violate(idx, caseID, "[lost-merge] "+lostAt, "", map[string]any{"idx": idx})
 	}
 }
+
+// ---------------------------------------------------------------------------------------------
+// C06: key take-overs across blocks under real parallelism. Block 0 is full of keyed rows
+// ("pre-i"); every "deleter" deletes keys of its own share of them, every "taker" re-keys rows it
+// owns in block 1 to the keys of one deleter as soon as they are free (SetKey fails while the key
+// exists). Each key has exactly one deleter and one taker, so no two transactions ever create the
+// same key (that would be KF-KEY-CHECK-THEN-ACT); what is exercised is the order in which commits
+// of different blocks reach the stream relative to the order in which they touched the key table.
+// At quiescence every key must resolve identically on the primary and on the stream replica.
+
+func keyTakeoverRound(w *W, idx int) {
+	caseID := fmt.Sprintf("E3:key-takeover:round%d", idx)
+	w.Begin(idx, caseID)
+	ch := make(commit.Channel, 4096)
+	mk := func(wr commit.Logger) *column.Collection {
+		o := column.Options{Capacity: 1000, Vacuum: 1 << 40}
+		if wr != nil {
+			o.Writer = wr
+		}
+		c := column.NewCollection(o)
+		c.CreateColumn("k", column.ForKey())
+		c.CreateColumn("v", column.ForInt64())
+		return c
+	}
+	P, R := mk(ch), mk(nil)
+	defer P.Close()
+	defer R.Close()
+	const pairs, perPair = 4, 120
+	fill := func(txn *column.Txn) error {
+		for i := 0; i < 16384; i++ {
+			txn.InsertKey(fmt.Sprintf("pre-%d", i), func(r column.Row) error { r.SetInt64("v", int64(i)); return nil })
+		}
+		for p := 0; p < pairs; p++ {
+			for j := 0; j < perPair; j++ {
+				txn.InsertKey(fmt.Sprintf("own-%d-%d", p, j), func(r column.Row) error { r.SetInt64("v", -1); return nil })
+			}
+		}
+		return nil
+	}
+	P.Query(fill)
+	var replayErr error
+	drained := make(chan struct{})
+	go func() {
+		defer close(drained)
+		for c := range ch {
+			if err := R.Replay(c); err != nil && replayErr == nil {
+				replayErr = err
+			}
+		}
+	}()
+	hook := &stressHook{delayPct: 20, seed: w.Seed + int64(idx)}
+	hook.install(P)
+	defer hook.remove()
+	var takeovers, attempts int64
+	var fns []func()
+	for p := 0; p < pairs; p++ {
+		p := p
+		fns = append(fns, func() { // deleter: keys pre-(p*1000+j), rows of block 0; touches another row of the block in the same transaction
+			for j := 0; j < perPair; j++ {
+				key, other := fmt.Sprintf("pre-%d", p*1000+j), fmt.Sprintf("pre-%d", p*1000+500+j)
+				P.Query(func(txn *column.Txn) error {
+					txn.DeleteKey(key)
+					return txn.QueryKey(other, func(r column.Row) error { r.MergeInt64("v", 1); return nil })
+				})
+			}
+		})
+		fns = append(fns, func() { // taker: its own rows in block 1 take the freed keys over
+			for j := 0; j < perPair; j++ {
+				key, own := fmt.Sprintf("pre-%d", p*1000+j), fmt.Sprintf("own-%d-%d", p, j)
+				for try := 0; try < 200000; try++ {
+					var err error
+					P.Query(func(txn *column.Txn) error {
+						return txn.QueryKey(own, func(r column.Row) error { err = txn.Key().Set(key); return nil })
+					})
+					atomic.AddInt64(&attempts, 1)
+					if err == nil {
+						atomic.AddInt64(&takeovers, 1)
+						break
+					}
+					runtime.Gosched()
+				}
+			}
+		})
+	}
+	parallel(fns...)
+	close(ch)
+	<-drained
+	if replayErr != nil {
+		w.Violate(idx, caseID, "Replay failed: "+replayErr.Error(), "", map[string]any{"idx": idx})
+		return
+	}
+	bad, compared := "", 0
+	for p := 0; p < pairs && bad == ""; p++ {
+		for j := 0; j < perPair && bad == ""; j++ {
+			for _, key := range []string{fmt.Sprintf("pre-%d", p*1000+j), fmt.Sprintf("own-%d-%d", p, j), fmt.Sprintf("pre-%d", p*1000+500+j)} {
+				po, ro := int64(-1), int64(-1)
+				var pv, rv int64
+				P.QueryKey(key, func(r column.Row) error { po = int64(r.Index()); pv, _ = r.Int64("v"); return nil })
+				R.QueryKey(key, func(r column.Row) error { ro = int64(r.Index()); rv, _ = r.Int64("v"); return nil })
+				compared++
+				if po != ro || pv != rv {
+					bad = fmt.Sprintf("key %q: the primary resolves it to row %d (v=%d), the replica fed the stream in emission order to row %d (v=%d) (-1 = not found)", key, po, pv, ro, rv)
+					break
+				}
+			}
+		}
+	}
+	if bad == "" && P.Count() != R.Count() {
+		bad = fmt.Sprintf("Count: primary %d, replica %d", P.Count(), R.Count())
+	}
+	w.Stat("key_takeovers_across_blocks", takeovers)
+	w.Stat("key_takeover_attempts", attempts)
+	w.Stat("keys_compared_primary_vs_replica", int64(compared))
+	w.Eval(hashOf("key-takeover", idx, takeovers), takeovers > 0)
+	if bad != "" {
+		w.Violate(idx, caseID, "[key-replica] deleters free keys of block-0 rows while takers re-key block-1 rows to them: "+bad, "", map[string]any{"idx": idx})
+	}
+}
